@@ -106,6 +106,12 @@ def _case(draw: Any, max_ops: int) -> dict[str, Any]:
         el, eu = draw(st.sampled_from([(-50.0, 10.0), (-10.0, 50.0), (-30.0, 10.0), (-10.0, 30.0)]))
         opening = [["bounds", 0, -100.0, 100.0, el, eu], ["prop", reg, draw(st.sampled_from([-5.0, 5.0])), None, None],
                    ["prop", opa, sign * draw(st.sampled_from([100.0, 150.0, 500.0])), None, None]]
+        if draw(st.booleans()):
+            # second scripted opening: a preference inside the exclusion zone, then a bounds update that shrinks the zone
+            # (or moves the inclusion bounds) so that the preference becomes admissible
+            pref = draw(st.sampled_from([-20.0, 20.0, 5.0, -5.0]))
+            opening = [["bounds", 0, -200.0, 200.0, -30.0, 30.0], ["prop", reg, pref, None, None],
+                       ["bounds", 0, -200.0, 200.0, *draw(st.sampled_from([(-10.0, 10.0), (0.0, 0.0), (-3.0, 3.0)]))]]
         ops = ops[:ngroups] + opening + ops[ngroups:]
     return {"ngroups": ngroups, "actors": actors, "ops": ops}
 
@@ -164,6 +170,7 @@ def run_case(case: Any, pid: str) -> Verdict:
             last_request: dict[int, Any] = {}
             request_history: dict[int, list[Any]] = {}
             last_kind: dict[int, str] = {}
+            last_prop: dict[int, tuple[float, Any, Any, Any]] = {}
 
             async def drain_async(rx: Any) -> list[Any]:
                 out = []
@@ -193,6 +200,7 @@ def run_case(case: Any, pid: str) -> Verdict:
                         source_id=f"a{prio}", preferred_power=None if power is None else Power.from_watts(power),
                         bounds=Bounds(None if bl is None else Power.from_watts(bl), None if bu is None else Power.from_watts(bu)),
                         component_ids=GROUPS[g], priority=prio, creation_time=loop.time(), set_operating_point=is_op))
+                    last_prop[ai] = (loop.time(), power, bl, bu)
                     if is_op:
                         v.labels.add("op_proposal")
                     if last_kind.get(g) == "prop-bounds":
@@ -275,6 +283,40 @@ def run_case(case: Any, pid: str) -> Verdict:
                                f"targets {reported.get((g, False))} + {reported.get((g, True))}")
                 if v.violations:
                     break
+            if not v.violations and last_prop:
+                # idempotence at the end: every live actor sends its latest proposal again, unchanged.  The targets depend
+                # only on the live proposals and the latest bounds, so the power requested afterwards must be the standing one
+                # (a target left stale by an earlier bounds update would move now)
+                standing = {g: r.power.as_watts() for g, r in last_request.items()}
+                resent = False
+                # with regular *and* operating-point proposals live in one group the actor resolves the group of the
+                # incoming proposal first, so the split legitimately depends on which kind arrived last: such groups
+                # are left alone
+                kinds: dict[int, set[bool]] = {}
+                for ai in last_prop:
+                    kinds.setdefault(actors[ai][0], set()).add(actors[ai][1])
+                for ai, (t_prop, power, bl, bu) in sorted(last_prop.items()):
+                    if loop.time() - t_prop >= 50.0:
+                        continue   # expired or about to: sending it again would change the live set
+                    g, is_op, prio = actors[ai]
+                    if len(kinds[g]) != 1:
+                        continue
+                    resent = True
+                    await prop_tx.send(Proposal(
+                        source_id=f"a{prio}", preferred_power=None if power is None else Power.from_watts(power),
+                        bounds=Bounds(None if bl is None else Power.from_watts(bl), None if bu is None else Power.from_watts(bu)),
+                        component_ids=GROUPS[g], priority=prio, creation_time=loop.time(), set_operating_point=is_op))
+                    await world.settle()
+                if resent:
+                    v.labels.add("live_proposals_sent_again_at_the_end")
+                    all_live = all(loop.time() - t_prop < 50.0 for t_prop, *_ in last_prop.values())
+                    for r in await drain_async(req_rx):
+                        g = next(k for k in range(ngroups) if frozenset(r.component_ids) == GROUPS[k])
+                        if all_live and len(kinds.get(g, {0, 1})) == 1 and g in standing \
+                                and abs(r.power.as_watts() - standing[g]) > 1e-6:
+                            v.fail(f"after every live proposal was sent again unchanged the request for group {g} became "
+                                   f"{r.power.as_watts()} W; the standing request was {standing[g]} W (a target was stale)")
+                            break
             await actor.stop()
 
     world.run(scenario)
